@@ -2,6 +2,7 @@ package harness
 
 import (
 	"fmt"
+	"runtime/debug"
 	"strings"
 	"testing"
 
@@ -17,7 +18,7 @@ func runEngineProperty(t *testing.T, prop, test string, gen func(*rapid.T) Progr
 	defer rec.Flush(t)
 
 	runOne := func(p Program, fatalf func(string, ...interface{})) {
-		e, f, err := RunProgram(p, engCfg)
+		e, f, err := runProgramRecover(p, engCfg)
 		if e != nil {
 			defer e.Destroy()
 		}
@@ -85,3 +86,37 @@ func tail(s []string, n int) []string {
 }
 
 var _ = fmt.Sprintf
+
+// runProgramRecover turns a panic of the code under test into a violation of
+// whatever property is being checked: an operation that panics did not behave.
+func runProgramRecover(p Program, cfg func(*Engine)) (e *Engine, f *Fail, err error) {
+	var eng *Engine
+	defer func() {
+		if r := recover(); r != nil {
+			if s, ok := r.(error); ok && strings.HasPrefix(s.Error(), "hole barrier") {
+				panic(r)
+			}
+			last := "?"
+			if eng != nil {
+				last = eng.lastOp
+			}
+			e = eng
+			f = &Fail{Props: []string{"C01", "C06", "C10", "C11", "C12", "C16", "C08"}, Sig: "panic|after=" + last,
+				Detail: fmt.Sprintf("the replica engine panicked during %s: %v\n%s", last, r, headStr(string(debug.Stack()), 3000))}
+			err = nil
+		}
+	}()
+	eng, err = NewEngine(p)
+	if err != nil {
+		return nil, nil, err
+	}
+	if cfg != nil {
+		cfg(eng)
+	}
+	for i, op := range p.Ops {
+		if f := eng.Step(i, op); f != nil {
+			return eng, f, nil
+		}
+	}
+	return eng, eng.Finish(), nil
+}
